@@ -3058,7 +3058,7 @@ bool BW_MidiSequencer::parseXMI(FileAndMemReader &fr)
     size_t mus_len = fr.fileSize();
     fr.seek(0, FileAndMemReader::SET);
 
-    uint8_t *mus = (uint8_t*)std::malloc(mus_len + 20);
+    uint8_t *mus = (mus_len + 20 > mus_len) ? (uint8_t*)std::malloc(mus_len + 20) : NULL; // (unknown size: ftell() failed)
     if(!mus)
     {
         m_errorString = "Out of memory!";
